@@ -18,11 +18,14 @@ import (
 
 	"github.com/hyperledger/aries-framework-go/component/storageutil/mem"
 	"github.com/hyperledger/aries-framework-go/pkg/didcomm/common/service"
+	"github.com/hyperledger/aries-framework-go/pkg/didcomm/protocol/mediator"
 	"github.com/hyperledger/aries-framework-go/pkg/didcomm/protocol/messagepickup"
 	"github.com/hyperledger/aries-framework-go/pkg/didcomm/transport"
 	mockdispatcher "github.com/hyperledger/aries-framework-go/pkg/mock/didcomm/dispatcher"
 	mockpackager "github.com/hyperledger/aries-framework-go/pkg/mock/didcomm/packager"
+	mockkms "github.com/hyperledger/aries-framework-go/pkg/mock/kms"
 	mockprovider "github.com/hyperledger/aries-framework-go/pkg/mock/provider"
+	mockvdr "github.com/hyperledger/aries-framework-go/pkg/mock/vdr"
 	"github.com/hyperledger/aries-framework-go/pkg/store/connection"
 
 	"verifharness/hx"
@@ -30,7 +33,7 @@ import (
 
 // RvCase is one forced schedule.
 type RvCase struct {
-	Req      string `json:"req"`                // status | batch
+	Req      string `json:"req"`                // status | batch (message pickup) | keylist (mediator AddKey; at most 2 responses before the return)
 	During   int    `json:"during,omitempty"`   // responses handled while the requester is inside the send of its request
 	Waiting  int    `json:"waiting,omitempty"`  // 0/1: a response handled while the requester sits in its select
 	After    int    `json:"after,omitempty"`    // responses handled after the requester has returned
@@ -154,25 +157,67 @@ func runRendezvous(c Case, kind string, tr *hx.Trace) {
 		handlerFn, requesterFn = "messagepickup.(*Service).handleBatch", "messagepickup.(*Service).BatchPickup"
 	}
 
+	inbound := func(msg service.DIDCommMsg) {
+		_, _ = svc.HandleInbound(msg, service.NewDIDCommContext("did:example:me", "did:example:mediator", nil))
+	}
+
+	var med *mediator.Service
+
+	if rv.Req == "keylist" {
+		handlerFn, requesterFn = "mediator.(*Service).handleKeylistUpdateResponse", "mediator.(*Service).AddKey"
+		prov.ServiceMap = map[string]interface{}{messagepickup.MessagePickup: svc}
+		prov.KMSValue = &mockkms.KeyManager{}
+		prov.VDRegistryValue = &mockvdr.MockVDRegistry{}
+
+		med, err = mediator.New(prov)
+		if err != nil {
+			panic(err)
+		}
+
+		rs, err := prov.StorageProviderValue.OpenStore(mediator.Coordination)
+		if err != nil {
+			panic(err)
+		}
+
+		if err := rs.Put("route_connID_conn-1", []byte(`{"ConnectionID":"conn-1"}`)); err != nil {
+			panic(err)
+		}
+
+		inbound = func(msg service.DIDCommMsg) {
+			_, _ = med.HandleInbound(msg, service.NewDIDCommContext("did:example:me", "did:example:mediator", nil))
+		}
+	}
+
 	resCh := make(chan rvResult, 1)
 
 	go func() {
-		if rv.Req == "batch" {
+		switch rv.Req {
+		case "batch":
 			n, err := svc.BatchPickup("conn-1", 5)
 			if err != nil {
 				resCh <- rvResult{Err: err.Error()}
 			} else {
 				resCh <- rvResult{Val: n}
 			}
+		case "keylist":
+			// response 1 reports success, response 2 a failure: AddKey's result tells which one was taken
+			err := med.AddKey("conn-1", "key-1")
 
-			return
-		}
-
-		st, err := svc.StatusRequest("conn-1")
-		if err != nil {
-			resCh <- rvResult{Err: err.Error()}
-		} else {
-			resCh <- rvResult{Val: st.MessageCount}
+			switch {
+			case err == nil:
+				resCh <- rvResult{Val: 1}
+			case strings.Contains(err.Error(), "failed to update the recipient key"):
+				resCh <- rvResult{Val: 2}
+			default:
+				resCh <- rvResult{Err: err.Error()}
+			}
+		default:
+			st, err := svc.StatusRequest("conn-1")
+			if err != nil {
+				resCh <- rvResult{Err: err.Error()}
+			} else {
+				resCh <- rvResult{Val: st.MessageCount}
+			}
 		}
 	}()
 
@@ -191,7 +236,15 @@ func runRendezvous(c Case, kind string, tr *hx.Trace) {
 	respond := func(i int) {
 		m := map[string]interface{}{"@id": id}
 
-		if rv.Req == "batch" {
+		if rv.Req == "keylist" {
+			m["@type"] = mediator.KeylistUpdateResponseMsgType
+			result := "success"
+			if i != 0 {
+				result = "server_error"
+			}
+
+			m["updated"] = []interface{}{map[string]interface{}{"recipient_key": "key-1", "action": "add", "result": result}}
+		} else if rv.Req == "batch" {
 			m["@type"] = messagepickup.BatchMsgType
 
 			var att []interface{}
@@ -212,7 +265,7 @@ func runRendezvous(c Case, kind string, tr *hx.Trace) {
 			panic(err)
 		}
 
-		_, _ = svc.HandleInbound(msg, service.NewDIDCommContext("did:example:me", "did:example:mediator", nil))
+		inbound(msg)
 	}
 
 	// the schedule as it happens, in the model's vocabulary
@@ -227,8 +280,14 @@ func runRendezvous(c Case, kind string, tr *hx.Trace) {
 	for k := 0; k < rv.During; k++ {
 		respond(next)
 
-		if _, ok := waitHandlers(handlerFn, k+1, 10*time.Second); !ok {
-			fail("harness:"+label, "a response handled while the requester is registered did not reach its send")
+		if st, ok := waitHandlers(handlerFn, k+1, 5*time.Second); !ok {
+			if len(st) <= k {
+				// the handler returned: it found no channel although the requester is inside the send of its request
+				// (the registration must precede the send, or a quick response is dropped and the requester times out)
+				fail("response-dropped:"+label, "a response handled while the requester is inside the send of its request found no registered channel and was dropped")
+			} else {
+				fail("harness:"+label, fmt.Sprintf("a response handled while the requester is registered did not reach its send: %v", st))
+			}
 
 			return
 		}
@@ -394,6 +453,14 @@ func rvCases(tier string) []Case {
 			y := x
 			cs = append(cs, Case{Comp: "rv", Mode: "rv", Rv: &y})
 		}
+	}
+
+	// mediator AddKey removes its registration on the success path only: schedules with responses AFTER a failed AddKey
+	// (failed send, or the "server_error" response taken) are not generated (the model's requester always removes it)
+	for _, x := range []RvCase{{During: 1}, {During: 2}, {Waiting: 1, After: 2}, {During: 1, After: 1}, {During: 1, SendFail: true}, {During: 2, SendFail: true}} {
+		y := x
+		y.Req = "keylist"
+		cs = append(cs, Case{Comp: "rv", Mode: "rv", Rv: &y})
 	}
 
 	if tier == "thorough" {
